@@ -602,6 +602,7 @@ func c28(r *vkit.Run) {
 		arrivals[h.Get("X-Id")]++
 	}
 	defectCells := map[string]int64{}
+	var defectSamples []interface{}
 	firstFamSamples := 0
 	for i, c := range cases {
 		var kinds []string
@@ -843,8 +844,9 @@ func c28(r *vkit.Run) {
 			r.Count("chunkdefect_connections", 1)
 			nt := c28DefectAccount(r, c, res, ok, answered, statuses, arrivals, defectCells, w)
 			r.CaseS(key, nt)
-			if nt && i%53 == 0 && r.WantSample() {
-				r.Sample(map[string]interface{}{"kinds": kinds, "answered": answered, "statuses": statuses, "keep_alive": c.Seq, "client_fin": c.Fin})
+			if nt && i%53 == 0 && len(defectSamples) < 4 {
+				// own evidence key: the sample budget of vkit is used up by the other families
+				defectSamples = append(defectSamples, map[string]interface{}{"kinds": kinds, "answered": answered, "statuses": statuses, "keep_alive": c.Seq, "client_fin": c.Fin, "defective_request_bytes": clip(string(c28DefectReqBytes(c)), 400)})
 			}
 		} else if c.Fam == "bodied" {
 			r.CaseS(key, bodiedInSync)
@@ -888,6 +890,7 @@ func c28(r *vkit.Run) {
 	}
 	if r.Replay == "" && r.Counter("not_run_after_repeated_hangs") == 0 {
 		c28DefectCoverage(r, defectCells)
+		r.Extra("chunk_defect_samples", defectSamples)
 	}
 	if r.Replay == "" && r.Counter("connections_fully_answered") == 0 {
 		r.Inconclusive("no pipelined connection was answered completely")
